@@ -30,31 +30,31 @@ theorem after_wait {p : List Call} (h : waitsFollowed p = true) (hw : headIsWait
   | nil => cases hw
   | cons c r => cases c <;> simp_all [waitsFollowed, headIsWait]
 
-theorem thOK_finish {th th' : Thread} (h : thOK th = true) (hpc : th'.pc = .idle)
-    (hprog : th'.prog = th.prog.tail) : thOK th' = true := by
-  simp only [thOK, Bool.and_eq_true] at h ⊢
+theorem thOK_finish {th th' : Thread} (h : thOKW th = true) (hpc : th'.pc = .idle)
+    (hprog : th'.prog = th.prog.tail) : thOKW th' = true := by
+  simp only [thOKW, Bool.and_eq_true] at h ⊢
   rw [hpc, hprog]
   exact ⟨⟨⟨waitsFollowed_tail h.1.1.1, noProcessIf_tail h.1.1.2⟩, rfl⟩, rfl⟩
 
-theorem thOK_goto {th th' : Thread} (h : thOK th = true) (hprog : th'.prog = th.prog)
+theorem thOK_goto {th th' : Thread} (h : thOKW th = true) (hprog : th'.prog = th.prog)
     (hm : pcModeOK th'.pc = true) (hw : isWaitPc th'.pc = true → headIsWait th.prog = true) :
-    thOK th' = true := by
-  simp only [thOK, Bool.and_eq_true] at h ⊢
+    thOKW th' = true := by
+  simp only [thOKW, Bool.and_eq_true] at h ⊢
   rw [hprog]
   refine ⟨⟨⟨h.1.1.1, h.1.1.2⟩, hm⟩, ?_⟩
   cases hh : isWaitPc th'.pc with
   | false => rfl
   | true => simp [hw hh]
 
-theorem thOK_wait {th : Thread} (h : thOK th = true) (hw : isWaitPc th.pc = true) :
+theorem thOK_wait {th : Thread} (h : thOKW th = true) (hw : isWaitPc th.pc = true) :
     headIsWait th.prog = true := by
-  simp only [thOK, Bool.and_eq_true] at h
+  simp only [thOKW, Bool.and_eq_true] at h
   have := h.2
   rw [hw] at this
   simpa using this
 
-theorem thOK_mode {th : Thread} (h : thOK th = true) : pcModeOK th.pc = true := by
-  simp only [thOK, Bool.and_eq_true] at h
+theorem thOK_mode {th : Thread} (h : thOKW th = true) : pcModeOK th.pc = true := by
+  simp only [thOKW, Bool.and_eq_true] at h
   exact h.1.2
 
 theorem locOK_intro {q : List Nat} {nc : Nat} {qm : Option Tid} {t : Tid} {th : Thread}
@@ -82,7 +82,7 @@ theorem J_init {progs : List (List Call)} (hwf : WF progs) : J (init progs true)
   · intro t th hg
     obtain ⟨p, hp, rfl⟩ := getT_init hg
     obtain ⟨h1, _, h3⟩ := hwf p hp
-    simp [thOK, h1, h3, pcModeOK, isWaitPc]
+    simp [thOKW, h1, h3, pcModeOK, isWaitPc]
   · intro t th hg
     obtain ⟨p, hp, rfl⟩ := getT_init hg
     exact locOK_of_not_holds rfl
@@ -127,7 +127,7 @@ theorem pres_idle (hJ : J s) (hg : getT s t = some th) (hpc : th.pc = .idle)
   | cons c r =>
     cases c with
     | processIf k =>
-      simp [thOK, hprog, noProcessIf] at hth
+      simp [thOKW, hprog, noProcessIf] at hth
     | process =>
       simp [step, hg, hpc, hprog] at h; cases h
       jset
@@ -549,7 +549,7 @@ theorem pres_waitRead3 {timed ato ne : Bool} (hJ : J s) (hg : getT s t = some th
   have hth := hJ.base.th t th hg
   have hw : headIsWait th.prog = true := thOK_wait hth (by rw [hpc]; rfl)
   have hwf : waitsFollowed th.prog = true := by
-    simp only [thOK, Bool.and_eq_true] at hth; exact hth.1.1.1
+    simp only [thOKW, Bool.and_eq_true] at hth; exact hth.1.1.1
   simp only [step, hg, hpc] at h
   split at h
   · cases h
